@@ -13,7 +13,9 @@
    - seeded change C14-11 (BEGIN, COMMIT and ROLLBACK each go through the SqlConn's breaker: a breaker
      that opened while the body ran refuses the end call, which is then never sent);
    - seeded change C14-10 (a body that returned nil is rolled back when its most recent statement
-     failed). *)
+     failed);
+   - seeded change C14-12 (after a successful Rollback a recovered runtime.Error is raised again
+     instead of being returned as "recover from ..."). *)
 From Coq Require Import List ZArith Bool.
 From GZ Require Import C14.Model C14.Check.
 Import ListNotations.
@@ -277,6 +279,39 @@ Example tolerated_failure_commits :
   wlog W = [en 0 1 CBegin OOk; en 0 1 (CStmt 0 KExec) OOk; en 0 1 (CStmt 1 KExec) OFail; en 0 1 CCommit OOk] /\
   map tst (wthreads W) = [TDone (mkRes 1 (Some BNil) (RetErr ENil) false)].
 Proof. vm_compute. split; reflexivity. Qed.
+
+(* ---- C14-12: "} else if isRuntimePanic(p) { panic(p) }" after the successful Rollback of the panic
+   branch: the panic of a body whose value is a runtime.Error (nil dereference, nil-map write, index
+   out of range, failed assertion, division by zero, panic(nil)) escapes Transact / TransactCtx.
+   [ret_reraise] is the variant for such bodies (the model's BPanic carries no value). ----------- *)
+Definition ret_reraise (o : bout) (x : endres) : ret :=
+  match x, o with
+  | XOk, BPanic => RetPanic
+  | _, _ => ret_of o x
+  end.
+
+(* "rolls back if the body panicked (the panic is reported as an error, not swallowed ...)": the body
+   panicked, the transaction was rolled back, no driver call panicked - and the call itself panics
+   instead of returning an error *)
+Theorem body_panic_escapes_refuted :
+  exists scs sched orc th r e,
+    let W := exec_with ret_reraise true scs sched orc in
+    nth_error (wthreads W) 0 = Some th /\ tst th = TDone r /\ rbody r = Some BPanic /\
+    In e (proj 0 (wlog W)) /\ ecall e = CRollback /\ eout e = OOk /\
+    count lostb (wlog W) = 0%nat /\ rret r = RetPanic.
+Proof.
+  exists [sc1 [stx] RPanic], [0; 0; 0]%nat, [].
+  eexists. eexists. exists (mkEnt 0 1 CRollback OOk vgen). vm_compute. repeat split; auto.
+Qed.
+
+(* the check's judgement rejects exactly that observation: finished_ok on the variant's run *)
+Example body_panic_escapes_fails_the_check :
+  let W := exec_with ret_reraise true [sc1 [stx] RPanic] [0; 0; 0]%nat [] in
+  prop_ok (mkCase true [sc1 [stx] RPanic] [0; 0; 0]%nat [] (wlog W) (map tobs_of (wthreads W)) 0) = false /\
+  let V := exec true [sc1 [stx] RPanic] [0; 0; 0]%nat [] in
+  prop_ok (mkCase true [sc1 [stx] RPanic] [0; 0; 0]%nat [] (wlog V) (map tobs_of (wthreads V)) 0) = true /\
+  map tst (wthreads V) = [TDone (mkRes 1 (Some BPanic) (RetErr (ERecover None)) false)].
+Proof. vm_compute. repeat split; reflexivity. Qed.
 
 (* the same runs on the code as it is *)
 Example commit_error_kept :
